@@ -65,3 +65,63 @@ pub fn abs_kind(o: &StackObject) -> u8 {
         StackObject::Any => K_ANY,
     }
 }
+
+// ---- abstract pre-states on a real heap (DESIGN.md §3.1) -------------------------------------------------
+
+pub const N_VARIANTS: u8 = 18;
+
+/// one heap cell whose variant is `c` and whose payload is canonical
+pub fn mk(c: u8) -> StackObject {
+    match c {
+        0 => StackObject::Int(0),
+        1 => StackObject::Float(0.0),
+        2 => StackObject::Bool(false),
+        3 => StackObject::None,
+        4 => StackObject::Bytes(Vec::new()),
+        5 => StackObject::String(String::new()),
+        6 => StackObject::ByteArray(Vec::new()),
+        7 => StackObject::List(Vec::new()),
+        8 => StackObject::Tuple(Vec::new()),
+        9 => StackObject::Dict(HashMap::new()),
+        10 => StackObject::Set(HashSet::new()),
+        11 => StackObject::FrozenSet(HashSet::new()),
+        12 => StackObject::Mark,
+        13 => StackObject::Global { module: String::new(), name: String::new() },
+        14 => StackObject::Instance(InstanceObject {
+            callable: StackObjectRef::new(StackObject::None),
+            args: StackObjectRef::new(StackObject::None),
+        }),
+        15 => StackObject::Callable(StackObjectRef::new(StackObject::Global {
+            module: String::new(),
+            name: String::new(),
+        })),
+        16 => StackObject::Extension(0),
+        _ => StackObject::Any,
+    }
+}
+
+/// reference kind of variant code `c` (written out independently of `abs_kind`)
+pub fn kind_of_code(c: u8) -> u8 {
+    const T: [u8; 18] = [
+        K_INT, K_FLOAT, K_BOOL, K_NONE, K_BYTES, K_STR, K_BYTEARRAY, K_LIST, K_TUPLE, K_DICT, K_SET, K_FROZENSET,
+        K_MARK, K_CALLABLE, K_INSTANCE, K_CALLABLE, K_ANY, K_ANY,
+    ];
+    T[c as usize]
+}
+
+pub fn hm_insert_forget<K: Eq + std::hash::Hash, V, S: std::hash::BuildHasher, A: std::alloc::Allocator>(
+    _: &mut HashMap<K, V, S, A>,
+    k: K,
+    v: V,
+) -> Option<V> {
+    std::mem::forget(k);
+    std::mem::forget(v);
+    None
+}
+pub fn hs_insert_forget<T: Eq + std::hash::Hash, S: std::hash::BuildHasher, A: std::alloc::Allocator>(
+    _: &mut HashSet<T, S, A>,
+    t: T,
+) -> bool {
+    std::mem::forget(t);
+    true
+}
